@@ -179,6 +179,24 @@ def gen_C03(tier, seed):
             p.set_cast(ch, None)
             p.write(1, route='dict', data_arrays={ix: ixa, ch: p.array(mk(d1, 3))}, fname='third.dlis')
         progs.append(p.build())
+    # inline arrays that are not C-contiguous (a strided column, a Fortran-ordered image), changed in place by the caller between the
+    # creation of the channel and the write, or between two writes: each file holds the content at the time of its write
+    for i in range(6 if tier == 'quick' else 36):
+        p = Prog(f'C03-inplacelayout-{i}', {'kind': 'inplacelayout'})
+        lf, _ = base_lf(p, vrl=rng.choice([128, 8192]))
+        lay = ['strided', 'F', 'strided', 'view', 'C', 'F'][i % 6]
+        dt = ['float64', 'int16', 'float32', 'uint8', 'int32', 'float64'][i % 6]
+        a1, a2 = rand_array(rng, dt, 6), rand_array(rng, dt, 6, 3)
+        id1, id2 = p.array(a1, lay), p.array(a2, lay)
+        c1, c2 = p.channel(lf, 'DEPTH', data=id1), p.channel(lf, 'IMAGE', data=id2)
+        p.frame(lf, 'FR', [c1, c2])
+        kw = {'from': 1, 'to': 5} if i % 3 == 2 else {}
+        if i % 2 == 0:
+            p.write(1, fname='w1.dlis', **kw)
+        p.mutate_array(id1, rand_array(rng, dt, 6))
+        p.mutate_array(id2, rand_array(rng, dt, 6, 3))
+        p.write(1, fname='w2.dlis', **kw)
+        progs.append(p.build())
     return progs
 
 
@@ -491,6 +509,18 @@ def gen_C04(tier, seed):
         p.write(1, valid=False, either=True)
         progs.append(p.build())
     progs += attr_programs('C04')
+    # crowds of same-named objects: copy numbers 127, 128, ... 130 (the copy number of an OBNAME is one USHORT byte, whatever its value)
+    # in the objects' own record and in the references to them
+    for i in range(2):
+        p = Prog(f'C04-manycopies-{i}', {'kind': 'manycopies'})
+        lf, _ = base_lf(p, vrl=[8192, 256][i])
+        p.frame(lf, 'FR', [p.channel(lf, 'CH', data=np.arange(3, dtype='float64'))])
+        zs = [p.add(lf, 'zone', 'ZONE-A', domain=S('BOREHOLE-DEPTH')) for _ in range(131 if i == 0 else 129)]
+        picks = [zs[0], zs[127], zs[128], zs[-1]]
+        p.add(lf, 'parameter', 'P', zones=L(*[R(z) for z in picks]), values=L(*[I(k) for k in range(len(picks))]))
+        p.add(lf, 'group', 'G', object_list=L(R(zs[128]), R(zs[1])))
+        p.write(1)
+        progs.append(p.build())
     return progs
 
 
@@ -1105,6 +1135,61 @@ def gen_C11(tier, seed):
                 p.write(fid, route='none' if route in ('inline', 'presliced') else route, data_arrays=arrs, extras=extras,
                         perm=perm, fname=f'out{fid}.dlis', **opts)
             progs.append(p.build())
+    # dataset names that cross the channel names (channel A reads data set B, channel B reads data set A; a rotation of three): the
+    # structured source holds its fields in the order and under the names of the frame's channels, so that its dtype equals the target's
+    for i in range(4 if tier == 'quick' else 24):
+        nch = 2 + i % 2
+        names = ['A', 'B', 'C'][:nch]
+        dt = ['float64', 'int16', 'float32', 'uint8'][i % 4]
+        wid = None if i % 4 < 2 else 2
+        arrays = [rand_array(rng, dt, 5, wid) for _ in names]
+        p = Prog(f'C11-crossmap-{i}', {'kind': 'crossmap'})
+        for fid, route in enumerate(['inline', 'dict', 'struct', 'h5'], start=1):
+            p.file(fid, vrl=256)
+            lf = p.lf(fid, lf=fid, fh_id='CROSSED')
+            p.origin(lf, name='O')
+            chans, arrs = [], {}
+            for c, nm in enumerate(names):
+                ds = names[(c + 1) % nch]
+                if route == 'inline':
+                    chans.append(p.channel(lf, nm, data=arrays[c], dataset_name=ds))
+                else:
+                    ch = p.channel(lf, nm, dataset_name=ds)
+                    chans.append(ch)
+                    arrs[ch] = p.array(arrays[c])
+            p.frame(lf, 'FR', chans)
+            # the source lists its data sets in the order of the channel NAMES: data set A first (it belongs to the last channel)
+            perm = [nch - 1] + list(range(nch - 1)) if route != 'inline' else None
+            p.write(fid, route='none' if route == 'inline' else route, data_arrays=arrs, perm=perm, fname=f'out{fid}.dlis',
+                    in_chunk=[None, 2][i % 2], **({'from': 1, 'to': 4} if i >= 2 else {}))
+        progs.append(p.build())
+    # inline arrays that are not C-contiguous, filled (or corrected) in place after the channel was created: the file is the one
+    # written from a dict holding the final content
+    for i in range(4 if tier == 'quick' else 24):
+        p = Prog(f'C11-inplacelayout-{i}', {'kind': 'inplacelayout'})
+        lay = ['strided', 'F', 'view', 'strided'][i % 4]
+        dt = ['float64', 'int16', 'float32', 'uint16'][i % 4]
+        first = [rand_array(rng, dt, 6), rand_array(rng, dt, 6, 2)]
+        final = [rand_array(rng, dt, 6), rand_array(rng, dt, 6, 2)]
+        kw = {'from': 2, 'to': 6} if i >= 2 else {}
+        for fid, route in enumerate(['inline', 'dict'], start=1):
+            p.file(fid, vrl=256)
+            lf = p.lf(fid, lf=fid, fh_id='FILLED-LATER')
+            p.origin(lf, name='O')
+            if route == 'inline':
+                ids = [p.array(a, lay) for a in first]
+                chans = [p.channel(lf, f'CH{c}', data=ids[c]) for c in range(2)]
+                p.frame(lf, 'FR', chans)
+                if i % 2:
+                    p.write(fid, fname='before.dlis', **kw)
+                for c in range(2):
+                    p.mutate_array(ids[c], final[c])
+                p.write(fid, fname='out1.dlis', **kw)
+            else:
+                chans = [p.channel(lf, f'CH{c}') for c in range(2)]
+                p.frame(lf, 'FR', chans)
+                p.write(fid, route='dict', data_arrays={chans[c]: p.array(final[c]) for c in range(2)}, fname='out2.dlis', **kw)
+        progs.append(p.build())
     progs += narrowcast_programs('C11', rng)
     # pathlib.Path objects for the output file and the HDF5 source
     for i in range(2):
@@ -1250,6 +1335,29 @@ def gen_C13(tier, seed):
                         opts = {'from': 1, 'to': len(s)}
                     p.write(1, **opts)
                     progs.append(p.build())
+    # nearly uniform indexes: many equal steps and a few odd ones, inside / outside the documented tolerance (3.16 % of the median step);
+    # an even number of steps with two middle values (the median is then k + 0.5); windows that cut the odd steps off
+    def cum(steps, start=1000):
+        out = [start]
+        for d in steps:
+            out.append(out[-1] + d)
+        return out
+    near = [cum([100] * 10 + [105]), cum([100] * 10 + [101]), cum([105] + [100] * 9 + [104]), cum([100, 100, 101, 101]),
+            cum([-100] * 8 + [-106, -100]), cum([100, 101, 100, 101, 100, 103, 100]), cum([50] * 6 + [51, 52, 53]),
+            cum([200, 200, 200, 200, 207]), cum([-100] * 9 + [-101, -102])]
+    for i, sq in enumerate(near if tier == 'quick' else near * 3):
+        dt = ['float64', 'int32', 'float32', 'int16', 'uint16'][i % 5]
+        sq = [abs(v) % 30000 if dt in ('int16', 'uint16') else v for v in sq] if dt in ('int16', 'uint16') and (min(sq) < 0 or max(sq) > 30000) else sq
+        for w, kw in enumerate([{}, {'from': 0, 'to': 9}, {'from': 3, 'to': len(sq)}]):
+            if w and tier == 'quick' and (i + w) % 2:
+                continue
+            p = Prog(f'C13-nearuniform-{i}-{w}', {'kind': 'nearuniform', 'dtype': dt})
+            lf, _ = base_lf(p)
+            idx = p.channel(lf, 'INDEX', data=np.array(sq, dtype=dt))
+            oth = p.channel(lf, 'OTHER', data=rand_array(rng, 'float32', len(sq)))
+            p.frame(lf, 'FR', [idx, oth], index_type=EN('FrameIndexType', 'BOREHOLE_DEPTH'))
+            p.write(1, **{k: min(v, len(sq)) for k, v in kw.items()})
+            progs.append(p.build())
     # the caller changes its inline arrays in place between two writes (same window): the statistics are those of the rows written
     for i in range(4 if tier == 'quick' else 16):
         p = Prog(f'C13-inplace-{i}', {'kind': 'inplace'})
